@@ -89,6 +89,38 @@ def run(ctx):
                         ctx.violation("C07:header-validated", "a header row was validated: %s" % e, case)
                     if limit is not None and line + 1 > limit:
                         ctx.violation("C07:beyond-limit-validated", "a row beyond the limit %d was validated: %s" % (limit, e), case)
+    reused_app_cases(ctx)
+
+
+def reused_app_cases(ctx):
+    """`--until` of an application object that is configured again: every call of set_options starts from scratch"""
+    from cutplace import applications
+
+    import os
+    import tempfile
+    tmp_dir = tempfile.mkdtemp(prefix="c07-")
+    try:
+        cid_path = os.path.join(tmp_dir, "cid.csv")
+        with open(cid_path, "w") as f:
+            f.write("D,Format,Delimited\nF,a,,,,Integer,1...9\n")
+        for first, second, want in ((["--until", "1"], [], None), (["--until", "1"], ["--until", "-1"], None), (["--until", "3"], ["-u", "0"], 0),
+                                    ([], ["--until", "2"], 2), (["--until", "0"], [], None), (["--until", "2"], ["--until", "5"], 5)):
+            app = applications.CutplaceApp()
+            try:
+                app.set_options(["cutplace"] + first + [cid_path])
+                app.set_options(["cutplace"] + second + [cid_path])
+                got = app.validate_until
+            except SystemExit as error:
+                got = "exit:%s" % error.code
+            except Exception as error:  # noqa
+                got = core.classify_exception(error)
+            ctx.count(key=("reused-app", tuple(first), tuple(second)), branch="reused-app")
+            if got != want:
+                ctx.violation("C07:cli-until:reused-application", "set_options(%r) after set_options(%r) leaves the validation limit %r, the command line asks for %r" % (second, first, got, want),
+                              {"first": first, "second": second, "limit": got})
+    finally:
+        import shutil
+        shutil.rmtree(tmp_dir, ignore_errors=True)
 
 
 def replay(ctx, case):
